@@ -26,7 +26,7 @@ def fixed_docs():
     ]
 
 
-NSMAP = {"p": "urn:u", "q": "urn:v"}
+NSMAP = dict({"p": "urn:u", "q": "urn:v"}, **xpgen.EXT_NS)
 
 
 def make_docs(rng, n_random):
@@ -143,7 +143,7 @@ def build_cases(rng, tier):
             vs["e"] = {"t": "ns", "v": [[d + 1, i, 0] for i in ids]}
             vt["e"] = "ns"
         has_ns = any(u for u in flats[d]["uri"])
-        g = xpgen.Gen(rng, vars_=vt, nsmap=NSMAP if has_ns else None)
+        g = xpgen.Gen(rng, vars_=vt, nsmap={"p": "urn:u", "q": "urn:v"} if has_ns else None, ext=rng.random() < 0.35)
         e = g.any(rng.choice([1, 2, 2, 3]))
         size = rng.randint(1, 4)
         cases.append((d + 1, rng.randint(1, n), rng.randint(1, size), size, e, vs))
@@ -205,7 +205,13 @@ def run_cases(docs, flats, cases, wd, kind="native", mode="eval", tag="c02", fla
             _, err = p.communicate(timeout=1800)
         except subprocess.TimeoutExpired:
             p.kill(); err = b"TIMEOUT"
-        res = {r["id"]: r for r in vlib.read_ndjson(rp)}
+        res = {}
+        for line in open(rp):            # the last line may be cut off if the process died
+            try:
+                r = json.loads(line)
+                res[r["id"]] = r
+            except ValueError:
+                pass
         for k, (d, ctx, pos, size, e, vs) in enumerate(ch):
             if k not in res:
                 if p.returncode != 0:
@@ -294,7 +300,7 @@ def validate(res, events, flats, wd, tag, classify_fn, prop):
     for rj in rejects:
         ev = events[rj["line"]]
         if rj["msg"].startswith("SPEC-INCONSISTENT"):
-            raise vlib.Infra("specification inconsistency on %r: %s" % (ev["text"], rj["msg"][:400]))
+            raise vlib.Infra("specification inconsistency on %r: %s" % (ev["text"], rj["msg"][:8000]))
         key = classify_fn(ev)
         if key and key in known:
             res.known(known[key])
